@@ -235,7 +235,8 @@ func (c *monC17) End(m *Machine) *Violation {
 var kindsC17 = append(append([]wk{}, worldKinds...), wk{"snip:register", 6}, wk{"snip:recover", 4}, wk{"confirm", 8}, wk{"recend", 6}, wk{"evend", 3}, wk{"snip:enrol-totp", 1}, wk{"reconfirm", 3}, wk{"snip:mangle", 12}, wk{"snip:evleak", 8}, wk{"snip:evshare", 6})
 
 var profC17 = profile{
-	must: []string{"auth"}, may: []string{"confirm", "lock", "logout", "oauth2", "otp", "recover", "register", "remember"},
+	arbVariants: true,
+	must:        []string{"auth"}, may: []string{"confirm", "lock", "logout", "oauth2", "otp", "recover", "register", "remember"},
 	setups: []string{"totp", "sms", "recovery", "expire"}, kinds: kindsC17, minOps: 14, maxOps: 36,
 	accts: [2]int{2, 3}, browsers: [2]int{1, 2}, middlewares: []string{"", "remember", "remember", "expire"},
 	tweak: func(t *rapid.T, c *harness.Config) { c.LockAfter = rapid.IntRange(3, 6).Draw(t, "lockafter17") },
